@@ -46,6 +46,7 @@ def plan(tier):
             sh = 1 if n <= 3 else NSHARD * (4 if n >= 6 else 1)
             units += [(sort, n, k, sh) for k in range(sh)]
     units.append(('events',))
+    units.append(('deep',))
     return units
 
 
@@ -226,6 +227,23 @@ def objects_for(t, sort, r=None):
     return out
 
 
+DEEP_SLOTS = [
+    # a quantifier inside another quantifier's domain (range bound, set element) - only through int(bool)
+    'forall i in [0 to int((exists a in ys: @a > 0))]: xs[@i] > 0',
+    'exists i in {int((forall a in ys: @a > @b.f)), 1}: @i > 0',
+    'forall i in [int((exists j in [0 to int((exists a in zs: @a > 0))]: @j > 0)) to 3]: @i > 0',
+    # a quantifier inside an index, a function argument, a set element, a range bound of `in`
+    'xs[int((exists a in ys: @a > 0))] > 0',
+    'abs(int((forall a in @b.xs: @a > 0))) > 0',
+    'x in {int((exists a in ys: @a > @a.f)), 2}',
+    'x in [0 to int((forall a in ys: (exists i in zs: @i > @a)))]',
+    # markers below several accessors / inside nested indices
+    'm.n[xs[@a.k]].f > 0', '@a.m.n[@b.k[@a.j]].f = @a.g', 'xs[ys[zs[@a]]] > 0', 'xs[-(@a.k + len({@b.j, 1}))] > 0',
+    # the same name free in one place and bound in another
+    '@a > 0 and (forall a in xs: @a > 0)', '(exists a in xs: @a > 0) or @a.f > 0', 'forall i in @a.xs: (exists a in ys: @a > @i)',
+]
+
+
 def event_family():
     """Scope / pattern / property / specification level iterate() and aliases()."""
     texts = []
@@ -238,6 +256,34 @@ def event_family():
 
 def run(unit):
     r = Result()
+    if unit[0] == 'deep':
+        for text in DEEP_SLOTS:
+            r.count('evaluations')
+            st, e = impl.try_parse('expr', text)
+            if st != 'ok':
+                r.notes['deep-slot text rejected:' + st] += 1
+                continue
+            objs = [(f'expr {text}', e)]
+            try:
+                objs.append((f'api-expr {text}', absyn.build(absyn.lift(e))))
+            except Exception as ex:  # noqa: BLE001
+                r.notes['deep-slot api build rejected: ' + type(ex).__name__] += 1
+            st, p = impl.try_parse('pred', '{ ' + text + ' }')
+            if st == 'ok':
+                objs.append((f'pred {{ {text} }}', p))
+            for label, o in objs:
+                for sub in W.preorder(o):
+                    if hasattr(sub, 'data_type') or W.cname(sub).startswith('HplPredicate'):
+                        r.count('states')
+                        for kind, detail in check_object(sub, f'sub-object {W.cname(sub)} of {label}', r):
+                            r.violation(kind + ' (deep slot)', {'deep': text}, detail, size=len(text))
+                for dlabel, d in derived_objects(o, label):
+                    r.count('states')
+                    for kind, detail in check_object(d, dlabel, r):
+                        r.violation(kind + ' (object derived from a queried one)', {'deep': text}, detail, size=len(text))
+            r.count('validated')
+        r.sample({'deep_slot': DEEP_SLOTS[0]})
+        return r
     if unit[0] == 'events':
         props_ = []
         for text in event_family():
@@ -290,6 +336,8 @@ def replay(w):
     from hplmc.checks.c08 import _detuple
 
     out = []
+    if 'deep' in w:
+        return [{'sig': v['sig'], 'detail': v['detail']} for v in run(('deep',)).violations]
     if 'term' in w:
         for label, o in objects_for(_detuple(w['term']), w['sort']):
             out += [{'sig': k, 'detail': d} for k, d in check_object(o, label)]
@@ -304,7 +352,7 @@ def replay(w):
 def describe(tier):
     b = bounds(tier)
     return {
-        'rule': f"every Bool/Num term with <= {b['nodes']} nodes over atoms x @a @a.f @b.f m.f 1 p @a.p xs @a.xs with + ** = < and implies not unary-minus abs len sum max int(bool), sets (1-3), ranges, indexing xs[..], inclusion, forall/exists binding a or i over arrays/sets/ranges: markers therefore occur in every child slot of every expression node kind; each accepted term is taken as expression (parser and API), predicate, event without alias / with alias a / zz, 3-wide event disjunction, pattern and property; plus a family of 20 multi-event properties and a specification for scope/pattern/property/specification-level iterate() and aliases(). Every queried expression / predicate / event is then copied (replace_var_reference, replace_self_reference, negate, but) and the copy is queried too (call sequences of depth 2). A state = one real object queried; a transition = one group of query calls on it.",
+        'rule': f"every Bool/Num term with <= {b['nodes']} nodes over atoms x @a @a.f @b.f m.f 1 p @a.p xs @a.xs with + ** = < and implies not unary-minus abs len sum max int(bool), sets (1-3), ranges, indexing xs[..], inclusion, forall/exists binding a or i over arrays/sets/ranges: markers therefore occur in every child slot of every expression node kind; each accepted term is taken as expression (parser and API), predicate, event without alias / with alias a / zz, 3-wide event disjunction, pattern and property; plus 14 texts that put quantifiers and markers into slots the node bound does not reach (a quantifier inside another quantifier's domain, inside an index, a function argument, a set element; markers below several accessors; one name free and bound), every sub-object of which is queried; plus a family of 20 multi-event properties and a specification for scope/pattern/property/specification-level iterate() and aliases(). Every queried expression / predicate / event is then copied (replace_var_reference, replace_self_reference, negate, but) and the copy is queried too (call sequences of depth 2). A state = one real object queried; a transition = one group of query calls on it.",
         'bounds': b,
         'exhaustive': True,
         'assumptions': ['attrs.fields() order is declaration order; the generic walk treats every AST-valued field as a child'],
